@@ -57,4 +57,16 @@ PROPS = {
         "quick": {"shards": 8, "timeout_s": 900, "floors": {"distinct_nontrivial": 1000, "layerA_exhaustive_matrices": 1900000, "layerB_calls_decided": 3000, "layerB_calls_where_greedy_is_suboptimal": 100, "layerB_gated_pairs": 5000}},
         "thorough": {"shards": 16, "timeout_s": 3400, "floors": {"distinct_nontrivial": 20000, "layerB_calls_where_greedy_is_suboptimal": 5000}},
     },
+    "C12": {
+        "quick": {"shards": 8, "timeout_s": 900, "floors": {"distinct_nontrivial": 300, "calls_decided": 2000, "appearance_contests": 100, "visual_attachments": 500, "positional_stage_checked": 1000}},
+        "thorough": {"shards": 16, "timeout_s": 3400, "floors": {"distinct_nontrivial": 20000, "appearance_contests": 5000}},
+    },
+    "C13": {
+        "quick": {"shards": 8, "timeout_s": 900, "floors": {"distinct_nontrivial": 300, "track_updates_checked": 5000, "galleries_checked": 2000, "evictions_checked": 300, "features_rejected_by_collect_thresholds": 100, "wasted_conversions_checked": 20}},
+        "thorough": {"shards": 16, "timeout_s": 3400, "floors": {"distinct_nontrivial": 20000}},
+    },
+    "C20": {
+        "quick": {"shards": 8, "timeout_s": 900, "floors": {"distinct_nontrivial": 100000, "tables": 142000, "probes": 10000000, "tables_with_a_repeated_gap": 1000, "constrained_attachments_checked": 1000, "calls_where_constraints_changed_the_outcome": 50, "unconstrained_vs_loose_calls_compared": 2000}},
+        "thorough": {"shards": 16, "timeout_s": 3400, "floors": {"distinct_nontrivial": 140000, "calls_where_constraints_changed_the_outcome": 2000}},
+    },
 }
